@@ -493,7 +493,7 @@ pub fn tables_to_json(t: &Tables) -> Value {
         .iter()
         .map(|(k, v)| (k.clone(), json!(v)))
         .collect();
-    json!({"markers": markers, "attrs": attrs})
+    json!({"markers": markers, "attrs": attrs, "marker_required_attrs": t.marker_required_attrs.iter().cloned().collect::<Vec<_>>()})
 }
 
 pub fn tables_from_json(v: &Value) -> Tables {
@@ -506,6 +506,13 @@ pub fn tables_from_json(v: &Value) -> Tables {
                 _ => crate::chain::MarkerKind::NoMarker,
             };
             t.markers.insert(k.clone(), kind);
+        }
+    }
+    if let Some(a) = v.get("marker_required_attrs").and_then(|x| x.as_array()) {
+        for d in a {
+            if let Some(d) = d.as_str() {
+                t.marker_required_attrs.insert(d.to_string());
+            }
         }
     }
     if let Some(m) = v.get("attrs").and_then(|x| x.as_object()) {
